@@ -5,6 +5,7 @@
 -/
 import HctlProofs.Props.C07
 import HctlProofs.Props.C06
+import HctlProofs.Lemmas.LexSpec
 namespace Hctl.C08
 open Hctl
 
@@ -108,5 +109,47 @@ theorem const_spelling_invariant :
 
 /-- the symbolic copy of a variable is chosen by its canonical (depth-based) name -/
 theorem copy_by_canonical_name (n : Nat) : varId (xs (n + 1)) = n := varId_xs n
+
+/-! ### white space and operator spellings (statements about the tokenizer, via its specification) -/
+
+/-- a white-space character in front of a text does not change its tokens -/
+theorem leading_ws_invariant (K : CharClass) (ext : Bool) (c : Char) (hc : K.isWs c = true) (cs : List Char) :
+    Lex.tokenize K ext (c :: cs) = Lex.tokenize K ext cs := by
+  simp [Lex.tokenize, Lex.lex_wsc ext c hc]
+
+/-- EXTRA WHITE SPACE BETWEEN TOKENS: if `a` tokenizes to `t1` and `b` to `t2`, then `a`, any white space, `b`
+tokenizes to `t1 ++ t2` (a separator is only required where two names would merge) -/
+theorem ws_between_tokens (K : CharClass) (hK : Lex.CharsOK K) (ext : Bool) (a b w : List Char) (t1 t2 : List Tok)
+    (ha : Lex.tokenize K ext a = .ok t1) (hb : Lex.tokenize K ext b = .ok t2) (hw : Lex.AllWs K w)
+    (hne : w ≠ [] ∨ Lex.Sep K b) : Lex.tokenize K ext (a ++ (w ++ b)) = .ok (t1 ++ t2) := by
+  rw [Lex.tokenize_iff_spells hK] at ha hb ⊢
+  exact Lex.ws_between hK ha hb hw hne
+
+/-- white space inside the segment of a hybrid operator (`{x}`, `in`, `%d%`, `:`) is ignored: all spellings of a
+segment yield the same token -/
+theorem hybrid_segment_ws (K : CharClass) (hK : Lex.CharsOK K) (ext : Bool) (o : HybOp) (seg seg' : List Char) (v : Name)
+    (d : Option Name) (cs : List Char) (ts : List Tok)
+    (h1 : Lex.Seg K (if o = .jump then false else ext) seg v d) (h2 : Lex.Seg K (if o = .jump then false else ext) seg' v d)
+    (hcs : Lex.tokenize K ext cs = .ok ts) :
+    Lex.tokenize K ext (o.str ++ (seg ++ cs)) = .ok (.hyb o v d :: ts) ∧
+    Lex.tokenize K ext (o.str ++ (seg' ++ cs)) = .ok (.hyb o v d :: ts) := by
+  rw [Lex.tokenize_iff_spells hK] at hcs ⊢
+  rw [Lex.tokenize_iff_spells hK]
+  exact ⟨Lex.Sp.hybShort o seg v d cs ts h1 hcs, Lex.Sp.hybShort o seg' v d cs ts h2 hcs⟩
+
+/-- the long name of a hybrid operator -/
+def longName : HybOp → List Char
+  | .bind => ['b','i','n','d'] | .jump => ['j','u','m','p'] | .ex => ['e','x','i','s','t','s'] | .all => ['f','o','r','a','l','l']
+
+/-- LONG VERSUS SHORT OPERATOR SPELLINGS: `\bind`, `\jump`, `\exists`, `\forall` yield the same token as `!`, `@`, `3`, `V` -/
+theorem long_short_invariant (K : CharClass) (hK : Lex.CharsOK K) (ext : Bool) (o : HybOp) (seg : List Char) (v : Name)
+    (d : Option Name) (cs : List Char) (ts : List Tok)
+    (hs : Lex.Seg K (if o = .jump then false else ext) seg v d) (hcs : Lex.tokenize K ext cs = .ok ts) :
+    Lex.tokenize K ext (o.str ++ (seg ++ cs)) = .ok (.hyb o v d :: ts) ∧
+    Lex.tokenize K ext ('\\' :: (longName o ++ (seg ++ cs))) = .ok (.hyb o v d :: ts) := by
+  rw [Lex.tokenize_iff_spells hK] at hcs ⊢
+  rw [Lex.tokenize_iff_spells hK]
+  refine ⟨Lex.Sp.hybShort o seg v d cs ts hs hcs, Lex.Sp.hybLong o (longName o) seg v d cs ts ?_ hs hcs⟩
+  cases o <;> simp [longName, Lex.hybOfLong]
 
 end Hctl.C08
